@@ -773,6 +773,53 @@ def extract_delete_model_iteration(repo):
     return 'unknown'
 
 
+def extract_diff_is_empty(repo):
+    """Diff.is_empty: `if ignore_apps: return not self.changed / else: return not self.deleted and not self.changed`
+    -> 'and'; anything else -> the source text of the non-ignoring return"""
+    tree = ast.parse(_src(repo, 'django_evolution/diff.py'))
+    cls = _find_class(tree, 'Diff')
+    fn = _find_func(cls, 'is_empty')
+    rets = [n for n in ast.walk(fn) if isinstance(n, ast.Return) and n.value is not None]
+    texts = sorted(ast.unparse(r.value) for r in rets)
+    canon = lambda t: ast.unparse(ast.parse(t, mode='eval').body)
+    if texts == sorted([canon('not self.changed'), canon('not self.deleted and not self.changed')]) and \
+            any(isinstance(n, ast.If) and ast.unparse(n.test) == 'ignore_apps' for n in ast.walk(fn)):
+        return 'and'
+    return ' | '.join(texts)
+
+
+def extract_deleted_apps_lookup(repo):
+    """ProjectSignature.diff finds the counterpart of a stored app with get_app_sig (id first, then legacy label):
+    'get_app_sig'; a plain dictionary lookup by id -> 'by_id'; else 'unknown'"""
+    tree = ast.parse(_src(repo, 'django_evolution/signature.py'))
+    cls = _find_class(tree, 'ProjectSignature')
+    fn = _find_func(cls, 'diff')
+    for n in ast.walk(fn):
+        if isinstance(n, ast.Assign) and len(n.targets) == 1 and isinstance(n.targets[0], ast.Name) and \
+                n.targets[0].id == 'new_app_sig':
+            t = ast.unparse(n.value)
+            if t == 'self.get_app_sig(old_app_sig.app_id)':
+                return 'get_app_sig'
+            if '_app_sigs' in t:
+                return 'by_id'
+            return 'unknown'
+    return 'unknown'
+
+
+def extract_applied_migrations_key(repo):
+    """the AppSignature.applied_migrations setter keeps the entries of a MigrationList whose app_label equals
+    self.<key>"""
+    tree = ast.parse(_src(repo, 'django_evolution/signature.py'))
+    cls = _find_class(tree, 'AppSignature')
+    for fn in [n for n in cls.body if isinstance(n, ast.FunctionDef) and n.name == 'applied_migrations']:
+        for n in ast.walk(fn):
+            if isinstance(n, ast.Compare) and ast.unparse(n.left) == "info['app_label']" and len(n.comparators) == 1:
+                t = ast.unparse(n.comparators[0])
+                if t.startswith('self.'):
+                    return t[5:]
+    return 'unknown'
+
+
 def extract_optimizer_copies(repo):
     """AppMutator._preprocess_mutations rebinds `mutations` to a deep copy before anything else uses it"""
     tree = ast.parse(_src(repo, 'django_evolution/mutators/app_mutator.py'))
@@ -875,6 +922,19 @@ def regenerate(repo, outdir):
     parts.append('/-- `FieldSignature._ATTRIBUTE_ALIASES` -/')
     parts.append('def attrAliases : List (String × String) := ' + lean_list(
         '(%s, %s)' % (lean_str(k), lean_str(v)) for k, v in aliases))
+    die = extract_diff_is_empty(repo)
+    flags['diff_is_empty'] = die
+    parts.append('')
+    parts.append('/-- Diff.is_empty(ignore_apps=False) = not deleted AND not changed ("and"), or what the source says instead -/')
+    parts.append('def diffIsEmpty : String := ' + lean_str(die))
+    dal = extract_deleted_apps_lookup(repo)
+    flags['deleted_apps_lookup'] = dal
+    parts.append('/-- how ProjectSignature.diff finds the current counterpart of a stored app -/')
+    parts.append('def deletedAppsLookup : String := ' + lean_str(dal))
+    amk = extract_applied_migrations_key(repo)
+    flags['applied_migrations_key'] = amk
+    parts.append('/-- the attribute of AppSignature that the applied_migrations setter matches a recorded migration\'s app label with -/')
+    parts.append('def appliedMigrationsKey : String := ' + lean_str(amk))
     gaf = extract_get_app_id_first(repo)
     flags['get_app_id_first'] = gaf
     parts.append('')
